@@ -645,12 +645,16 @@ class BcpInterface(MpfController):
                 self.debug_log("Processing command: %s %s", cmd, kwargs)
 
         if cmd in self.bcp_receive_commands:
+            callback = self.bcp_receive_commands[cmd]
             try:
-                callback = self.bcp_receive_commands[cmd]
+                # calling the handler only binds the parameters; its body runs when it is awaited
+                handler = callback(client=client, **kwargs)
             except TypeError as e:
+                # the parameters of the message do not fit the command (missing, unknown or reserved name)
+                self.warning_log("Rejected BCP command %s from client %s: %s", cmd, client.name, e)
                 self.machine.bcp.transport.send_to_client(client, "error", cmd=cmd, error=str(e), kwargs=kwargs)
             else:
-                await callback(client=client, **kwargs)
+                await handler
 
         else:
             self.warning_log("Received invalid BCP command: %s from client: %s", cmd, client.name)
